@@ -43,7 +43,7 @@ Upd(st, g, res)  == Mk("live", g, NoHandle, st.held, res)
 CtorOK(nc, nr, n) == ~IsBig(nc) /\ ~IsBig(nr) /\ (nc = 0 <=> nr = 0) /\ nc * nr = n
 
 ConstructorOps == {"default", "with_capacity", "new", "init", "from_vec", "from_box"}
-DrainOps       == {"d_next", "d_next_back", "d_len", "d_drop"}
+DrainOps       == {"d_next", "d_next_back", "d_len", "d_drop", "d_nth", "d_nth_back", "d_count", "d_last", "d_collect", "d_rcollect"}
 
 Remaining(h) == SubSeq(h.items, h.f + 1, Len(h.items) - h.b)
 
@@ -76,6 +76,24 @@ ApplyHandle(st, op, a) ==
                                ELSE Same(st, None)
       [] op = "d_len"       -> Same(st, Val(n))
       [] op = "d_drop"      -> Mk(st.phase, st.grid, NoHandle, st.held, Unit)    \* the rest of the line is dropped
+      \* the other Iterator / DoubleEndedIterator entry points of a drain mean what they mean for any iterator over the
+      \* remaining items; items stepped over are consumed (dropped), never left behind
+      [] op = "d_nth"       -> IF a.n < n
+                               THEN Mk(st.phase, st.grid, [h EXCEPT !.f = @ + a.n + 1],
+                                       Append(st.held, h.items[h.f + a.n + 1]), Some(h.items[h.f + a.n + 1]))
+                               ELSE Mk(st.phase, st.grid, [h EXCEPT !.f = @ + n], st.held, None)
+      [] op = "d_nth_back"  -> IF a.n < n
+                               THEN Mk(st.phase, st.grid, [h EXCEPT !.b = @ + a.n + 1],
+                                       Append(st.held, h.items[Len(h.items) - h.b - a.n]), Some(h.items[Len(h.items) - h.b - a.n]))
+                               ELSE Mk(st.phase, st.grid, [h EXCEPT !.b = @ + n], st.held, None)
+      \* consuming adaptors: the drain is moved into the call and dropped by it
+      [] op = "d_count"     -> Mk(st.phase, st.grid, NoHandle, st.held, Val(n))
+      [] op = "d_last"      -> IF n > 0
+                               THEN Mk(st.phase, st.grid, NoHandle, Append(st.held, h.items[Len(h.items) - h.b]), Some(h.items[Len(h.items) - h.b]))
+                               ELSE Mk(st.phase, st.grid, NoHandle, st.held, None)
+      [] op = "d_collect"   -> Mk(st.phase, st.grid, NoHandle, st.held \o Remaining(h), Ids(Remaining(h)))
+      [] op = "d_rcollect"  -> LET rv == [i \in 1..n |-> Remaining(h)[n + 1 - i]] IN
+                               Mk(st.phase, st.grid, NoHandle, st.held \o rv, Ids(rv))
 
 ApplyLive(st, op, a) ==
     LET g == st.grid  c == NC(st.grid)  r == NR(st.grid) IN
